@@ -74,7 +74,7 @@ func runC08(c *Ctx) {
 	n := 150
 	steps := 30
 	if c.Thorough {
-		n, steps = 2500, 120
+		n, steps = 500, 100 // per shard (12 shards, each with its own seed)
 	}
 	builderReuse(c, r)
 	for h := 0; h < n; h++ {
@@ -278,7 +278,7 @@ func runC08(c *Ctx) {
 func builderReuse(c *Ctx, r *Rng) {
 	n := 60
 	if c.Thorough {
-		n = 1500
+		n = 400
 	}
 	_, priv := rootKeys()
 	for i := 0; i < n; i++ {
